@@ -44,6 +44,11 @@ func refactorSpecials(r *Rng) []refactorSpecial {
 	add("commute-defined-int",
 		fmt.Sprintf("type Level int\n\nfunc Mix(a, b Level, n int) Level {\n\tt := a\n\tfor i := 0; i < n; i++ {\n\t\tt = t*b + (a & b)\n\t\tif t > %d {\n\t\t\tt = (a | t) ^ b\n\t\t}\n\t}\n\treturn t\n}\n", k*100),
 		fmt.Sprintf("type Level int\n\nfunc Mix(a, b Level, n int) Level {\n\tt := a\n\tfor i := 0; i < n; i++ {\n\t\tt = b*t + (b & a)\n\t\tif t > %d {\n\t\t\tt = b ^ (t | a)\n\t\t}\n\t}\n\treturn t\n}\n", k*100), nil)
+	// commuted operands of & | + * ^ in loop BOUNDS: they reach the text through the closed forms
+	// ({start, +, step} and the trip count), not through a BinOp line
+	add("commute-loop-bounds",
+		fmt.Sprintf("func Bounds(a, b int, xs []int) int {\n\tt := 0\n\tfor k := a & 7; k > 0; k -= 2 {\n\t\tt += k\n\t}\n\tfor i := b | 1; i < (a+b)*%d; i += 3 {\n\t\tt ^= i\n\t}\n\tfor j := 0; j < (len(xs) ^ b); j++ {\n\t\tt += j * a\n\t}\n\treturn t\n}\n", k2),
+		fmt.Sprintf("func Bounds(a, b int, xs []int) int {\n\tt := 0\n\tfor k := 7 & a; k > 0; k -= 2 {\n\t\tt += k\n\t}\n\tfor i := 1 | b; i < %d*(b+a); i += 3 {\n\t\tt ^= i\n\t}\n\tfor j := 0; j < (b ^ len(xs)); j++ {\n\t\tt += a * j\n\t}\n\treturn t\n}\n", k2), nil)
 	// labels, loop variables and the function itself renamed
 	add("rename-labels",
 		fmt.Sprintf("func Grid(n, m int) int {\n\tt := 0\nouter:\n\tfor i := 0; i < n; i++ {\n\t\tfor j := 0; j < m; j++ {\n\t\t\tif i*j > %d {\n\t\t\t\tcontinue outer\n\t\t\t}\n\t\t\tif i+j > %d {\n\t\t\t\tbreak outer\n\t\t\t}\n\t\t\tt += i ^ j\n\t\t}\n\t}\n\treturn t\n}\n", k, k*3),
